@@ -203,13 +203,18 @@ async fn one_round(ctx: &Ctx, out: &mut Outcome, rng: &mut Rng, idx: u64, root: 
         let _ = h.await;
     }
     ing.shutdown_token().cancel();
-    let _ = tokio::time::timeout(Duration::from_secs(30), timer).await;
-    // let the subscribers drain, then close the channels by dropping the ingester
-    tokio::time::sleep(Duration::from_millis(5)).await;
+    // generous wall-clock watchdogs: their expiry says nothing about the property, the round is not judged
+    let w1 = tokio::time::timeout(Duration::from_secs(120), timer).await.is_err();
+    // close the channels by dropping the ingester (the timer task, which held the other handle, has ended)
     drop(ing);
-    let _ = tokio::time::timeout(Duration::from_secs(5), legacy_task).await;
-    let _ = tokio::time::timeout(Duration::from_secs(5), topic_task).await;
+    let w2 = tokio::time::timeout(Duration::from_secs(120), legacy_task).await.is_err();
+    let w3 = tokio::time::timeout(Duration::from_secs(120), topic_task).await.is_err();
     let _ = std::fs::remove_dir_all(&wal_dir);
+    if w1 || w2 || w3 {
+        out.count("rounds_not_judged_watchdog_expired", 1);
+        out.note(&format!("round {idx}: a 120 s watchdog expired (shutdown flush {w1}, legacy subscriber {w2}, topic subscriber {w3}); round not judged"));
+        return;
+    }
 
     out.eval();
     out.count("rounds", 1);
